@@ -71,7 +71,8 @@ var pieceTable = []piece{
 	{name: "nl", val: "\n"},
 	// extended alphabet (random tier, fuzzing)
 	{name: "sq", val: `'`},
-	{name: "bs", val: `\`, src: `\\`, rawVal: `\`}, // ONE backslash: in a raw literal it is an ordinary character, also directly before the closing quote
+	{name: "bs", val: `\`, src: `\\`, rawVal: `\`},             // ONE backslash: in a raw literal it is an ordinary character, also directly before the closing quote
+	{name: "crlf", val: "\r\n", src: `\r\n`, rawVal: "\r\n"}, // CR LF: two characters of the value, in a raw literal two bytes of the source
 	{name: `\"`, val: `"`, src: `\"`, rawVal: `\"`}, // the documented escape written out, also inside '...'
 	{name: "ä", val: "ä"},
 	{name: `\u00e4`, val: "ä", src: `\u00e4`, rawVal: `\u00e4`},
@@ -594,8 +595,8 @@ func TestExhaustive(t *testing.T) {
 	}, runCase)
 	// a raw literal is untouched whatever it ends in: single backslashes (an odd number of them) before the closing quote
 	hx.Enumerate(t, "raw-backslash-tail", func(yield func(Case) bool) {
-		for _, head := range append([][]string{nil}, [][]string{{"a"}, {"{{1+1}}"}, {`\\`}, {"{{"}, {"}}"}, {"dq"}, {"sq"}, {"nl"}, {"bs", "a"}, {"{{x}}"}}...) {
-			for _, tail := range [][]string{{"bs"}, {"bs", "bs", "bs"}, {`\\`, "bs"}, {"bs", "dq"}, {"bs", "sq"}, {"bs", "n"}} {
+		for _, head := range append([][]string{nil}, [][]string{{"a"}, {"{{1+1}}"}, {`\\`}, {"{{"}, {"}}"}, {"dq"}, {"sq"}, {"nl"}, {"bs", "a"}, {"{{x}}"}, {"crlf"}, {"a", "crlf", "{{1+1}}"}}...) {
+			for _, tail := range [][]string{{"bs"}, {"bs", "bs", "bs"}, {`\\`, "bs"}, {"bs", "dq"}, {"bs", "sq"}, {"bs", "n"}, {"crlf"}, {"crlf", "a"}} {
 				if !yield(Case{Form: "raw", Pieces: append(append([]string(nil), head...), tail...), Env: Env{X: "v", Y: "w", T: "T"}, Assign: len(head)%2 == 0}) {
 					return
 				}
